@@ -292,7 +292,7 @@ fn rates(ctx: &Ctx, rep: &mut Report) {
             cells.push(Cell::Cuckoo { bsz, n, p });
         }
     }
-    for &(q, r) in &[(4usize, 4usize), (6, 2), (6, 4), (8, 4), (8, 8), (10, 6), (12, 3), (8, 56), (16, 48), (3, 61), (10, 40)] {
+    for &(q, r) in &[(4usize, 4usize), (6, 2), (6, 4), (8, 4), (8, 8), (10, 6), (12, 3), (8, 56), (16, 48), (3, 61), (10, 40), (6, 12), (4, 10), (5, 9), (3, 8)] {
         for &fill in &[0.25, 0.5, 1.0] {
             cells.push(Cell::Qf { q, r, fill });
         }
